@@ -7,32 +7,30 @@
                           fired: per executing callback-enabled node (top-level graph = path [],
                                  sub graph nodes, components) the handlers whose OnStart fired
                                  there, sorted (with multiplicity). *)
-From Eino Require Import Base.Util Model.Options Model.OptionsResume.
+From Eino Require Import Base.Util Model.Options Model.OptionsSpec Model.OptionsResume Model.OptionsAll.
 
 Inductive obs : Type :=
 | OErr
 | OOk (deliv : list (path * list N)) (fired : list (path * list N))
 | OModelBad (e : N).
 
-Definition deliveries (rs : list report) : list (path * list N) :=
-  flat_map (fun r => match r_items r with Some its => [(r_path r, map snd its)] | None => [] end) rs.
-Definition firings (rs : list report) : list (path * list N) :=
-  flat_map (fun r => match r_fired r with Some hs => [(r_path r, sort_by N.ltb hs)] | None => [] end) rs.
+(* deliveries / firings: Model/OptionsAll.v *)
 
-Definition model_obs (F : forest) (c : call) : obs :=
-  match run F c with
+Definition obs_of (r : res (list report)) : obs :=
+  match r with
   | Ok rs => OOk (deliveries rs) (firings rs)
   | Err e => if N.leb e 5 then OErr else OModelBad e
   | Panic => OModelBad 0
   end.
 
-(* a call of a session: entered with what the checkpoint store holds (None: a fresh start) *)
+(* a call from START on the forest whose n_runs are the branch decisions of the case *)
+Definition model_obs (F : forest) (c : call) : obs := obs_of (run F c).
+
+(* a call of a session, entered with what the checkpoint store holds (None: a fresh start):
+   the model's answer for EVERY node of the forest (which nodes execute in which call of a
+   session is the engine's business and not an input of the model) *)
 Definition model_obs_r (F : forest) (ck : option ckpt) (c : call) : obs :=
-  match resume F c ck with
-  | Ok rs => OOk (deliveries rs) (firings rs)
-  | Err e => if N.leb e 5 then OErr else OModelBad e
-  | Panic => OModelBad 0
-  end.
+  obs_of (would_resume F c ck).
 
 Fixpoint list_eqb {A} (eqb : A -> A -> bool) (x y : list A) : bool :=
   match x, y with
@@ -50,23 +48,36 @@ Definition obs_eqb (a b : obs) : bool :=
   | _, _ => false
   end.
 
-(* Case: one forest, the calls run concurrently / one after the other, each from START.
+(* pointwise: every node the implementation showed to execute (its entry in deliv / fired) has
+   exactly one entry in the model's answer for all nodes, with the same values
+   (Proofs/OptionsAll.v: within_deliveries_sound / _complete, within_firings_sound) *)
+Definition obs_within (model o : obs) : bool :=
+  match model, o with
+  | OErr, OErr => true
+  | OOk d f, OOk d' f' => within d d' && within f f'
+  | _, _ => false
+  end.
+
+(* Case: one forest, the calls run concurrently / one after the other, each from START; the
+         forest's n_runs are the decisions of the branches (inputs of the case), and the
+         implementation must report exactly the nodes the model reports.
    CaseR: a session on one checkpoint id — call 0 starts the run, every later call resumes it
-          where the previous one was interrupted; each call comes with the forest whose n_runs
-          are the nodes that executed in that call (tree unfolding: one graph per graph node)
-          and with the checkpoint it was entered with, as far as the public InterruptInfo of
-          the interrupted call shows it (interrupt-before / rerun nodes and interrupted sub
-          graphs are inputs of the checkpoint, the latter with their own nested checkpoint). *)
+          where the previous one was interrupted; each call comes with the checkpoint it was
+          entered with, as far as the public InterruptInfo of the interrupted call shows it
+          (interrupt-before / rerun nodes and interrupted sub graphs are inputs of the
+          checkpoint, the latter with their own nested checkpoint). What the call showed — one
+          entry per node that executed in it — is compared pointwise with the model's answer
+          for all nodes. *)
 Inductive ccase : Type :=
 | Case (F : forest) (calls : list (call * obs))
-| CaseR (steps : list (forest * option ckpt * call * obs)).
+| CaseR (F : forest) (steps : list (option ckpt * call * obs)).
 
 Definition bad (c : ccase) : bool :=
   match c with
   | Case F calls => negb (forallb (fun co => obs_eqb (model_obs F (fst co)) (snd co)) calls)
-  | CaseR steps =>
+  | CaseR F steps =>
       negb (forallb (fun s => match s with
-                              | (F, ck, c, o) => obs_eqb (model_obs_r F ck c) o
+                              | (ck, c, o) => obs_within (model_obs_r F ck c) o
                               end) steps)
   end.
 Definition mismatches (cs : list ccase) : list nat := mismatches_from bad 0 cs.
